@@ -149,8 +149,8 @@ def ref_tet(sel, mv, xs, ms):
     else:
         l2 = sum(edge_len(xs[i], xs[j], ms[i], ms[j]) ** 2 for i in range(4) for j in range(i + 1, 4))
         d = min(det_eig(m) for m in ms)
-    if not (l2 > 0) or not (d > 0):
-        return None
+    if not (l2 > 0) or not (d > 0) or not (vol > 0):
+        return None     # (a negative min_volume lets a non-positive volume through the guard above: no reference then)
     return C36 * (math.sqrt(d) * vol) ** (2.0 / 3.0) / l2
 
 
